@@ -108,6 +108,16 @@ def _reg(method: str, raw_path: str) -> Tuple[str, str]:
     return method, npath
 
 
+def _str_of(m: pf.Module, e: ast.AST) -> Optional[str]:
+    """A string literal, or a module-level constant bound once to one (route paths moved to constants)."""
+    s0 = pf.const_str(e)
+    if s0 is None and isinstance(e, ast.Name):
+        t, holes = sq.sql_of_expr(m, None, e)
+        if t is not None and not holes:
+            return t
+    return s0
+
+
 def routes_of(m: pf.Module) -> List[Tuple[pf.FuncDef, List[Tuple[str, str]], List[str]]]:
     """One entry per (handler, set of decorators that wrap the function OBJECT that was registered).  Decorators apply bottom-up: a
     `@routes.X(path)` line registers the function as decorated by the lines BELOW it only; a wrapper written above the registration
@@ -124,12 +134,12 @@ def routes_of(m: pf.Module) -> List[Tuple[pf.FuncDef, List[Tuple[str, str]], Lis
             if name is not None and name.startswith('routes.') and isinstance(d, ast.Call):
                 verb = name.split('.')[1]
                 if verb == 'route':
-                    ctx_args = [pf.const_str(a) for a in d.args[:2]]
+                    ctx_args = [_str_of(m, a) for a in d.args[:2]]
                     if len(ctx_args) < 2 or None in ctx_args:
                         raise AnalysisError(f'{FE}:{fn.lineno}: routes.route(...) without literal method and path')
                     method, path = ctx_args[0].upper(), ctx_args[1]  # type: ignore[union-attr]
                 else:
-                    path = pf.const_str(d.args[0]) if d.args else None
+                    path = _str_of(m, d.args[0]) if d.args else None
                     if path is None:
                         raise AnalysisError(f'{FE}:{fn.lineno}: route path is not a literal')
                     method = verb.upper()
@@ -152,11 +162,11 @@ def routes_of(m: pf.Module) -> List[Tuple[pf.FuncDef, List[Tuple[str, str]], Lis
         args = list(c.args)
         method = verb.upper()
         if verb == 'route':
-            mth = pf.const_str(args[0]) if args else None
+            mth = _str_of(m, args[0]) if args else None
             if mth is None:
                 raise AnalysisError(f'{FE}:{c.lineno}: add_route without a literal method')
             method, args = mth.upper(), args[1:]
-        path = pf.const_str(args[0]) if args else None
+        path = _str_of(m, args[0]) if args else None
         h = args[1] if len(args) > 1 else None
         if path is None or not isinstance(h, ast.Name):
             raise AnalysisError(f'{FE}:{c.lineno}: `{pf.nsrc(c)}` registers a route whose path/handler is not a literal / a plain name')
@@ -725,6 +735,10 @@ def _built_on_users_only(ctx: Ctx, m: pf.Module, w: pf.FuncDef, construct: str, 
     names = _deco_names(w)
     if any(n.split('.')[-1] == 'authenticated_users_only' for n in names):
         return True
+    for d in w.decorator_list:
+        # built on the stricter developers-only wrapper (checked on its own), as long as the call does not configure exceptions to it
+        if isinstance(d, ast.Call) and (pf.dotted(d.func) or '').split('.')[-1] == 'authenticated_developers_only' and not d.args and all(k.arg == 'redirect' for k in d.keywords):
+            return True
     unknown = [n for n in names if n.split('.')[-1] not in ('wraps',) and n not in NEUTRAL]
     ctx.need(not unknown, f'{construct}: decorator(s) {unknown} of the wrapper not classified')
     ctx.bad('R5', construct, f'{what} is not built on authenticated_users_only (decorators of the wrapper: {names}): its `userdata` is not the authenticated caller', m.path, w.lineno)
@@ -742,7 +756,7 @@ def _wrapper(ctx: Ctx, m: pf.Module, qual: str) -> Tuple[pf.Module, pf.FuncDef, 
     return m2, w2, handler
 
 
-def r5_wrappers(ctx: Ctx, m: pf.Module) -> None:
+def r5_wrappers(ctx: Ctx, m: pf.Module, oa: Optional['OwnerAnalysis'] = None) -> None:
     gm = pf.load('gear/gear/auth.py')
     # ---- authenticated_users_only: userdata fetched for this request; missing / inactive users never reach the handler
     gm2, w, handler = _wrapper(ctx, gm, 'Authenticator.authenticated_users_only')
@@ -830,12 +844,24 @@ def r5_wrappers(ctx: Ctx, m: pf.Module) -> None:
         ctx.need(len(g8.calls) >= 1, 'billing_project_users_only: handler call not found')
         A_MEM = ('truthy', 'membership test')
         st, val = g8.enforce(lambda v: v[A_MEM], [A_MEM])
-        if st == 'undecided':
+        g0 = pf.cfg(bp)
+        acc0 = g0.node_of(acc_calls[0])
+        skips = len(acc0) == 1 and any(g0.path_avoiding(g0.entry, lambda x, cn=cn: x is cn, lambda x: x is acc0[0]) is not None for cn in g8.calls)
+        if st == 'undecided' and not skips:
             raise AnalysisError(f'{cons_bp}: cannot decide whether the handler is reachable when _user_can_access answers false (conditions not recognised)')
         okb, whyb = st == 'ok', 'the handler is reachable when _user_can_access(...) is false'
+        # the answer must have been asked for on every path to the handler: a path that skips the call altogether decides by something else
+        g3 = pf.cfg(bp)
+        accn = g3.node_of(acc_calls[0])
+        ctx.need(len(accn) == 1, 'billing_project_users_only: the _user_can_access call is not a statement of its own')
+        for cn in g8.calls:
+            skip = g3.path_avoiding(g3.entry, lambda x, cn=cn: x is cn, lambda x: x is accn[0])
+            if skip is not None and okb:
+                tests = [pf.nsrc(x.ast)[:70] for x in skip if x.kind == 'test' and x.ast is not None]
+                okb, whyb = False, f'the handler is reachable on a path that never calls _user_can_access (through {tests or "no condition at all"}): membership of (batch, caller) is not what decides'
         amap = cf.call_args_by_param(ua, acc_calls[0])
         ctx.need(amap is not None, 'billing_project_users_only: arguments of _user_can_access not recognised')
-        roles = _user_can_access_roles(ctx, m, ua)  # parameter of _user_can_access -> 'batch' | 'user'
+        roles = _user_can_access_roles(ctx, m, ua, oa)  # parameter of _user_can_access -> 'batch' | 'user'
         flow = cf.PathFlow(m2)
         for pname, role in roles.items():
             ctx.need(pname in amap, f'billing_project_users_only: no argument for parameter `{pname}` of _user_can_access')
@@ -875,7 +901,7 @@ def r5_wrappers(ctx: Ctx, m: pf.Module) -> None:
         ctx.ok('R5', f'{FE}::{name}::pass-through', 'calls / returns the decorated function')
 
 
-def _user_can_access_roles(ctx: Ctx, m: pf.Module, ua: pf.FuncDef) -> Dict[str, str]:
+def _user_can_access_roles(ctx: Ctx, m: pf.Module, ua: pf.FuncDef, oa: Optional['OwnerAnalysis'] = None) -> Dict[str, str]:
     """_user_can_access decides membership by joining the batch's billing project with billing_project_users for (batch id, caller):
     checked structurally (aliases, operand order, conjunct order, where the text lives do not matter).  Returns which parameter of the
     function is bound to batches.id ('batch') and which to billing_project_users.user_cs ('user')."""
@@ -920,32 +946,54 @@ def _user_can_access_roles(ctx: Ctx, m: pf.Module, ua: pf.FuncDef) -> Dict[str, 
                         oku, why = False, f'{cf.TABLE} is outer-joined and the user condition sits in the ON clause: batches without a membership row still produce a row'
     if oku and len(set(roles.values())) < 2:
         oku, why = False, f'batch id and user are bound to the same parameter ({roles})'
-    # the answer is `<row> is not None`
+    # the answer: every `return` is `<row> is not None` (or its truthiness), or a constant: False anywhere (denying is safe), True only
+    # behind the query and where the empty result cannot arrive
     rets = [n for n in pf.walk_shallow(ua) if isinstance(n, ast.Return)]
-    ctx.need(len(rets) == 1 and rets[0].value is not None, f'{cons}: expected one return')
-    rv = pf.expand_locals(ua, rets[0].value, 3)
+    ctx.need(len(rets) >= 1 and all(r.value is not None for r in rets), f'{cons}: a return without a value')
     rec_names = set()
     g = pf.cfg(ua)
-    for n in g.node_of(e.call):
-        if isinstance(n.ast, ast.Assign) and isinstance(n.ast.targets[0], ast.Name):
-            rec_names.add(n.ast.targets[0].id)
-        elif isinstance(n.ast, ast.AnnAssign) and isinstance(n.ast.target, ast.Name):
-            rec_names.add(n.ast.target.id)
+    qnodes = g.node_of(e.call)
+    ctx.need(len(qnodes) == 1, f'{cons}: the query is not a statement of its own')
+    qn = qnodes[0]
+    if isinstance(qn.ast, ast.Assign) and isinstance(qn.ast.targets[0], ast.Name):
+        rec_names.add(qn.ast.targets[0].id)
+    elif isinstance(qn.ast, ast.AnnAssign) and isinstance(qn.ast.target, ast.Name):
+        rec_names.add(qn.ast.target.id)
+    single = all(len(pf.assignments(ua).get(n, [])) == 1 for n in rec_names)
 
     def is_rec(x: ast.AST) -> bool:
         if isinstance(x, ast.Await):
             x = x.value
-        return (isinstance(x, ast.Name) and x.id in rec_names) or x is e.call
-    if isinstance(rv, ast.Compare) and len(rv.ops) == 1 and isinstance(rv.ops[0], ast.IsNot) and is_rec(rv.left) and isinstance(rv.comparators[0], ast.Constant) and rv.comparators[0].value is None:
-        pass
-    elif isinstance(rv, ast.Call) and pf.dotted(rv.func) == 'bool' and len(rv.args) == 1 and is_rec(rv.args[0]):
-        pass
-    elif isinstance(rv, ast.Compare) and len(rv.ops) == 1 and isinstance(rv.ops[0], ast.Is) and is_rec(rv.left) and isinstance(rv.comparators[0], ast.Constant) and rv.comparators[0].value is None:
-        oku, why = False, 'the function answers `<row> is None`: members are rejected and everyone else admitted'
-    elif isinstance(rv, ast.Constant):
-        oku, why = False, f'the function answers the constant {rv.value!r}'
-    else:
-        raise AnalysisError(f'{cons}: the answer `{pf.nsrc(rets[0].value)}` is not `<row> is not None`')
+        return (isinstance(x, ast.Name) and x.id in rec_names and single) or \
+            (isinstance(x, ast.Call) and (x.lineno, x.col_offset) == (e.call.lineno, e.call.col_offset))
+    reach_empty = None
+    for r in rets:
+        if not oku:
+            break
+        rv = pf.expand_locals(ua, r.value, 3)
+        if isinstance(rv, ast.Compare) and len(rv.ops) == 1 and isinstance(rv.ops[0], ast.IsNot) and is_rec(rv.left) and isinstance(rv.comparators[0], ast.Constant) and rv.comparators[0].value is None:
+            continue
+        if isinstance(rv, ast.Call) and pf.dotted(rv.func) == 'bool' and len(rv.args) == 1 and is_rec(rv.args[0]):
+            continue
+        if isinstance(rv, ast.Compare) and len(rv.ops) == 1 and isinstance(rv.ops[0], ast.Is) and is_rec(rv.left) and isinstance(rv.comparators[0], ast.Constant) and rv.comparators[0].value is None:
+            oku, why = False, 'the function answers `<row> is None`: members are rejected and everyone else admitted'
+            continue
+        if isinstance(rv, ast.Constant):
+            if not rv.value:
+                continue
+            rn = g.node_of(r)
+            ctx.need(len(rn) == 1, f'{cons}: return statement not located')
+            if not g.dominated_by(rn[0], lambda x: x is qn):
+                oku, why = False, f'`{pf.nsrc(r)}` (line {r.lineno}) answers yes on a path that does not run the membership query: the answer does not come from the billing_project_users row of this request'
+                continue
+            if reach_empty is None and oa is not None and rec_names and single:
+                reach_empty = oa.reach_when_empty(ua, g, qn, sorted(rec_names)[0], e.call)
+            ctx.need(reach_empty is not None, f'{cons}: `{pf.nsrc(r)}` behind the query: cannot decide whether the empty result reaches it')
+            if rn[0].id in reach_empty[0]:
+                ctx.need(not reach_empty[1], f'{cons}: cannot decide whether `{pf.nsrc(r)}` is reachable when the query finds no row (a condition on the row is not recognised)')
+                oku, why = False, f'`{pf.nsrc(r)}` (line {r.lineno}) is reached also when the query finds no membership row'
+            continue
+        raise AnalysisError(f'{cons}: the answer `{pf.nsrc(r.value)}` is not `<row> is not None`')
     ctx.check(oku, 'R5', cons, f'membership is not decided by joining the batch\'s billing project with billing_project_users for (batch id, caller): {why}', m.path, ua.lineno)
     if not oku:
         # the caller of this function cannot map its arguments; fall back to the positional convention so that the wrapper check still runs
@@ -1358,7 +1406,7 @@ def run(ctx: Ctx) -> None:
                         declined.append(err)
             else:
                 ctx.ok('R2', cons, f'level {lv}')
-    for step in (lambda: check_forwarding(ctx, m, oa), lambda: r5_wrappers(ctx, m), lambda: r6_scoped_listings(ctx), lambda: r7_path_components(ctx, m, rts),
+    for step in (lambda: check_forwarding(ctx, m, oa), lambda: r5_wrappers(ctx, m, oa), lambda: r6_scoped_listings(ctx), lambda: r7_path_components(ctx, m, rts),
                  lambda: r8_membership(ctx, m, rts), lambda: r9_batch_scope(ctx, m, rts)):
         try:
             step()
